@@ -10,4 +10,5 @@ MODULES = {
     'ValidatorChain': 'validator_chain',
     'Reserve': 'reserve',
     'MatcherCap': 'matcher',
+    'BrokerProg': 'broker',
 }
